@@ -9,11 +9,11 @@ import overlay
 import vlib
 
 
-def cfg(threads, maxops, maxdown=1, forget=True, export=True):
+def cfg(threads, maxops, maxdown=1, forget=True, export=True, other=1):
     b = lambda x: "TRUE" if x else "FALSE"
-    return ("CONSTANTS Threads <- %s MaxOps = %d MaxDown = %d ForgetOnUnreachable = %s Export = %s\nSPECIFICATION Spec\n"
+    return ("CONSTANTS Threads <- %s MaxOps = %d MaxDown = %d ForgetOnUnreachable = %s Export = %s MaxOther = %d\nSPECIFICATION Spec\n"
             "INVARIANTS TypeOK C17_OnceOrDead C17_InOrder C17_Replies C17_Reported ExportCase\nPROPERTIES C17_FreshAttempt\n" % (
-                threads, maxops, maxdown, b(forget), b(export)))
+                threads, maxops, maxdown, b(forget), b(export), other))
 
 
 PLAN = {"quick": [("t1_ops4", ("T1", 4, 1))],
